@@ -250,7 +250,9 @@ func RunScalarMixture(c *core.Ctx, checkEM bool) {
 	}
 	what := "mixture:" + fam.name
 	optE, optW := !t.Bool(1, 5), !t.Bool(1, 5)
-	c.Logf("%s k=%d, %d EM steps, %d observations %v, OptimizeEmissions=%v OptimizeWeights=%v, pool %s", fam.name, k, steps, n, vecOf(x), optE, optW, cfg)
+	// the running model is exported to a file after every iteration
+	saveFile := t.Bool(1, 4)
+	c.Logf("%s k=%d, %d EM steps, %d observations %v, OptimizeEmissions=%v OptimizeWeights=%v SaveFile=%v, pool %s", fam.name, k, steps, n, vecOf(x), optE, optW, saveFile, cfg)
 	before := snapVecs([]ad.ConstVector{x})
 	// the summarised ("discrete") batch variant for integer valued data
 	discrete := kind != 0 && t.Bool(1, 2)
@@ -283,8 +285,14 @@ func RunScalarMixture(c *core.Ctx, checkEM bool) {
 		switch e := est.(type) {
 		case *se.MixtureEstimator:
 			e.OptimizeEmissions, e.OptimizeWeights = optE, optW
+			if saveFile {
+				e.SaveFile, e.SaveInterval = scratchFile("mixture.json"), 1
+			}
 		case *se.DiscreteMixtureEstimator:
 			e.OptimizeEmissions, e.OptimizeWeights = optE, optW
+			if saveFile {
+				e.SaveFile, e.SaveInterval = scratchFile("mixture.json"), 1
+			}
 		}
 		if pv, site := core.Try(func() {
 			// SetData + Estimate: for the summarised variant EstimateOnData would
@@ -457,6 +465,7 @@ func RunVectorHmm(c *core.Ctx, checkEM bool) {
 	// every call, sequentially as well (a typed nil *DenseFloat64Matrix in a
 	// Matrix interface passes the `tr != nil` test of BaumWelchStep)
 	optE, optT := !t.Bool(1, 5), true
+	saveFile := t.Bool(1, 5)
 	// with ChunkSize > 0 every sequence is cut into consecutive pieces of at
 	// most that many observations, which are treated as independent sequences
 	chunks := recs
@@ -502,6 +511,9 @@ func RunVectorHmm(c *core.Ctx, checkEM bool) {
 		est.ChunkSize = chunk
 		est.OptimizeEmissions = optE
 		est.OptimizeTransitions = optT
+		if saveFile {
+			est.SaveFile, est.SaveInterval = scratchFile("hmm.json"), 1
+		}
 		if pv, site := core.Try(func() { err = est.EstimateOnData(recs, nil, p) }); pv != nil {
 			if _, ok := pv.(tp.Abort); ok {
 				panic(pv)
